@@ -39,10 +39,7 @@ Definition table_spec_b (n : Z) (m : nat) (l : list Z) : bool :=
 Definition f64_pair_ok (n m : nat) : bool :=
   table_spec_b (Z.of_nat n) m (linspace_idx F64 (Z.of_nat n) m)
   && table_spec_b (Z.of_nat n) m (rev (linspace_idx_desc F64 (Z.of_nat n) m)).
-Definition f64_table_ok (N : nat) : bool :=
-  forallb (fun n => forallb (fun m => f64_pair_ok n m) (seq 2 N)) (seq 1 N).
-
-Lemma f64_table_48 : f64_table_ok 48 = true.
+Lemma f64_table_48 : forallb (fun n => forallb (fun m => f64_pair_ok n m) (seq 2 48)) (seq 1 48) = true.
 Proof. vm_compute. reflexivity. Qed.
 
 Theorem f64_tables_spec (n m : nat) : (1 <= n <= 48)%nat -> (2 <= m <= 49)%nat ->
@@ -81,18 +78,17 @@ Definition f64_ring_ok (h w : Z) (vps : option Z) : bool :=
   forallb (forallb (on_edge_b h w)) s && closed4_b s && closed4_b (reverse_boundaries s)
   && nodup_b (contour s) && nodup_b (contour (reverse_boundaries s)).
 Definition vps_range (V : nat) : list (option Z) := None :: map (fun v => Some (Z.of_nat v)) (seq 2 (V - 1)).
-Definition f64_rings_ok (N : nat) (V : list (option Z)) : bool :=
-  forallb (fun h => forallb (fun w => forallb (fun vps => f64_ring_ok (Z.of_nat h) (Z.of_nat w) vps) V)
-                            (seq 2 N)) (seq 2 N).
-
-Lemma f64_rings_12_20 : f64_rings_ok 11 (vps_range 20) = true.
+Definition vps_list_20 : list (option Z) := Eval vm_compute in vps_range 20.
+Lemma f64_rings_12_20 :
+  forallb (fun h => forallb (fun w => forallb (fun vps => f64_ring_ok (Z.of_nat h) (Z.of_nat w) vps) vps_list_20)
+                            (seq 2 11)) (seq 2 11) = true.
 Proof. vm_compute. reflexivity. Qed.
 
 Theorem f64_ring_spec (h w : nat) (vps : option Z) : (2 <= h <= 12)%nat -> (2 <= w <= 12)%nat ->
-  In vps (vps_range 20) -> f64_ring_ok (Z.of_nat h) (Z.of_nat w) vps = true.
+  In vps vps_list_20 -> f64_ring_ok (Z.of_nat h) (Z.of_nat w) vps = true.
 Proof.
   intros Hh Hw Hv.
-  apply (forallb3_in (fun h w vps => f64_ring_ok (Z.of_nat h) (Z.of_nat w) vps) 2 11 2 11 (vps_range 20) f64_rings_12_20);
+  apply (forallb3_in (fun h w vps => f64_ring_ok (Z.of_nat h) (Z.of_nat w) vps) 2 11 2 11 vps_list_20 f64_rings_12_20);
     try (apply in_seq; lia). exact Hv.
 Qed.
 
@@ -108,5 +104,22 @@ Lemma r_sides_eq h w vps : 2 <= h -> 2 <= w -> vps_ok vps -> r_sides h w vps = c
 Proof.
   intros Hh Hw Hv. unfold r_sides, c_sides, bbox_sides, sides_num.
   pose proof (num_of_ge2 vps h Hh Hv). pose proof (num_of_ge2 vps w Hw Hv).
+  rewrite !linspace_idx_RO, !linspace_idx_desc_RO by lia. reflexivity.
+Qed.
+
+Definition r_sides_num := sides_num (linspace_idx RO) (linspace_idx_desc RO).
+Definition r_sides_unclipped := bbox_sides_unclipped (linspace_idx RO) (linspace_idx_desc RO).
+
+Lemma r_sides_num_eq h w rn cn : 2 <= h -> 2 <= w -> (2 <= rn)%nat -> (2 <= cn)%nat ->
+  r_sides_num h w rn cn = c_sides_num h w rn cn.
+Proof.
+  intros Hh Hw Hr Hc. unfold r_sides_num, c_sides_num, sides_num.
+  rewrite !linspace_idx_RO, !linspace_idx_desc_RO by lia. reflexivity.
+Qed.
+
+Lemma r_sides_unclipped_eq h w v : 2 <= h -> 2 <= w -> 2 <= v ->
+  r_sides_unclipped h w (Some v) = c_sides_unclipped h w (Some v).
+Proof.
+  intros Hh Hw Hv. unfold r_sides_unclipped, c_sides_unclipped, bbox_sides_unclipped, num_of_unclipped, sides_num.
   rewrite !linspace_idx_RO, !linspace_idx_desc_RO by lia. reflexivity.
 Qed.
